@@ -204,6 +204,12 @@ class Check:
         # python-side direct oracle
         for i, (c, o) in enumerate(zip(cases, obs)):
             msg = st.direct_check(c, o)
+            # results handed out earlier must not change: the harness keeps the slice the previous call returned and
+            # reports it again as "prev_now" (streams name the output field that holds it in `retained_field`)
+            rf = getattr(st, "retained_field", None)
+            if not msg and rf and i > 0 and isinstance(o, dict) and "prev_now" in o and isinstance(obs[i - 1], dict) and rf in obs[i - 1]:
+                if o["prev_now"] != obs[i - 1][rf]:
+                    msg = "the result returned by the previous call (%s) reads %s after this call" % (obs[i - 1][rf][:80], o["prev_now"][:80])
             if msg:
                 info["spec_bad"] += 1
                 if info["spec_bad"] <= 3:
